@@ -173,6 +173,17 @@ func raceSig(rep string) string {
 	return strings.Join(fns, "|")
 }
 
+// runStartNs is the real time at which the current run (or its oracle phase) began, 0 between runs.
+var runStartNs atomic.Int64
+
+// inOracle is set once the system under test has finished and only harness-side history checking
+// (porcupine) remains: the hang watchdog then no longer speaks about the system under test.
+var inOracle atomic.Bool
+
+// oraclePhase is called from inside the bubble, where time.Now is the simulated clock: the
+// watchdog goroutine (outside) restarts its own real-time measurement when it sees the flag.
+func oraclePhase() { inOracle.Store(true) }
+
 func batch(t *testing.T, p *Prop) {
 	start := time.Now()
 	res := &BatchResult{Worker: *fWorker, Layer: *fLayer, Counters: map[string]int64{}}
@@ -196,12 +207,26 @@ func batch(t *testing.T, p *Prop) {
 	}
 	// watchdog outside the bubble (reads the real clock): a single run that does not finish within
 	// the cap ends the worker with exit status 3 after the results so far were written
-	var runStart atomic.Int64
+	runStart := &runStartNs
 	go func() {
+		restarted := false
 		for {
 			time.Sleep(500 * time.Millisecond)
+			if !inOracle.Load() {
+				restarted = false
+			} else if !restarted {
+				restarted = true
+				if runStart.Load() != 0 {
+					runStart.Store(time.Now().UnixNano())
+				}
+			}
 			if s := runStart.Load(); s != 0 && time.Since(time.Unix(0, s)) > time.Duration(*fRunCap)*time.Second {
 				flush()
+				if inOracle.Load() {
+					// the system under test had finished; the harness's own history check is slow
+					fmt.Fprintln(os.Stderr, "harness oracle exceeded the real-time cap")
+					os.Exit(3)
+				}
 				os.WriteFile(filepath.Join(*fOut, fmt.Sprintf("hang-%s-%d", *fLayer, *fWorker)), []byte("run exceeded the real-time cap"), 0o644)
 				os.Exit(3)
 			}
@@ -230,6 +255,7 @@ func batch(t *testing.T, p *Prop) {
 		}
 		pl.Sched.PreemptFrac = nil
 		os.WriteFile(journal, pl.JSON(), 0o644)
+		inOracle.Store(false)
 		runStart.Store(time.Now().UnixNano())
 		var out *plan.Outcome
 		if *fLayer == "race" {
